@@ -6342,7 +6342,16 @@ class PyCdlib:
         if rec.inode is None:
             raise pycdlibexception.PyCdlibInvalidInput('File has no data')
 
-        return pycdlibio.PyCdlibIO(rec.inode, self.logical_block_size)
+        # A file larger than one extent is a chain of records, one per extent.
+        more_inodes = []  # type: List[inode.Inode]
+        if isinstance(rec, dr.DirectoryRecord):
+            cont = rec.data_continuation
+            while cont is not None:
+                if cont.inode is not None:
+                    more_inodes.append(cont.inode)
+                cont = cont.data_continuation
+
+        return pycdlibio.PyCdlibIO(rec.inode, self.logical_block_size, more_inodes)
 
     def has_rock_ridge(self):
         # type: () -> bool
